@@ -2,6 +2,7 @@ package main
 
 import (
 	"fmt"
+	"slices"
 	"sort"
 	"strings"
 
@@ -28,7 +29,14 @@ type WView struct {
 	Hij          bool
 }
 
+// PObs is one call of the single-parameter accessor: Param(K) returned V (or panicked)
+type PObs struct {
+	K, V  string
+	Panic bool
+}
+
 type View struct {
+	PGet   []PObs // Param(name) for every name of the harness' universe (emitted as OutParam, not part of the Coq view)
 	Params []KV
 	Route  int // -1 nil
 	Req    ReqVal
@@ -123,8 +131,9 @@ func (r Raw) coq() string {
 }
 
 func (v View) human() string {
-	return fmt.Sprintf("{params=%v route=%d req=%s %s%s q=%v hdr=%v remote=%s | query=%v | w=%d/%d/%v hdr=%v hij=%v | scope=%d fox=%d}",
-		v.Params, v.Route, v.Req.Method, v.Req.Host, v.Req.Path, v.Req.Query, v.Req.Hdr, v.Req.Remote, v.Query,
+	ph, _ := paramHuman(v.PGet, v.Params)
+	return fmt.Sprintf("{params=%v%s route=%d req=%s %s%s q=%v hdr=%v remote=%s | query=%v | w=%d/%d/%v hdr=%v hij=%v | scope=%d fox=%d}",
+		v.Params, ph, v.Route, v.Req.Method, v.Req.Host, v.Req.Path, v.Req.Query, v.Req.Hdr, v.Req.Remote, v.Query,
 		v.W.Status, v.W.Size, v.W.Written, v.W.Hdr, v.W.Hij, v.Scope, v.Fox)
 }
 
@@ -142,4 +151,76 @@ func valuesKV(m map[string][]string) []KV {
 		out = append(out, KV{k, strings.Join(v, ",")})
 	}
 	return sortKV(out)
+}
+
+// paramOut: the OutParam term of a list of Param(name) observations
+func paramOut(ps []PObs) string {
+	return "OutParam " + hx.ListOf(ps, func(p PObs) string {
+		if p.Panic {
+			return hx.Pair(hx.Bytes(p.K), "Panic")
+		}
+		return hx.Pair(hx.Bytes(p.K), "(Ok "+hx.Bytes(p.V)+")")
+	})
+}
+
+// obsOuts: the outs of a specification-only observation (view, then the Param answers)
+func obsOuts(v View) string {
+	out := fmt.Sprintf("OutObs (Ok %s) %s", v.coq(), Raw{Req: -1, Route: -1, PNil: true, TNil: true, CQNil: true}.coq())
+	if len(v.PGet) > 0 {
+		out += "; " + paramOut(v.PGet)
+	}
+	return out
+}
+
+// paramHuman: readable Param answers; an answer that is not the first parameter of that name in ps
+// ("" when there is none) is marked (informal: the verdict is Coq's)
+func paramHuman(pg []PObs, ps []KV) (string, bool) {
+	var sb strings.Builder
+	odd := false
+	if n := len(pg); n > 1 && !slices.ContainsFunc(pg, func(p PObs) bool { return !p.Panic }) {
+		return fmt.Sprintf(" Param(name) PANICKED for each of the %d names asked", n), true
+	}
+	for _, p := range pg {
+		want := ""
+		for _, kv := range ps {
+			if kv.K == p.K {
+				want = kv.V
+				break
+			}
+		}
+		switch {
+		case p.Panic:
+			fmt.Fprintf(&sb, " Param(%q) PANICKED", p.K)
+			odd = true
+		case p.V != want:
+			fmt.Fprintf(&sb, " Param(%q)=%q (!! Params() of the same context: %q)", p.K, p.V, want)
+			odd = true
+		case p.V != "":
+			fmt.Fprintf(&sb, " Param(%q)=%q", p.K, p.V)
+		}
+	}
+	return sb.String(), odd
+}
+
+// paramOdd: informal pre-check used to choose what Coq evaluates first
+func (v View) paramOdd() bool {
+	_, odd := paramHuman(v.PGet, v.Params)
+	return odd
+}
+
+// wildcardNames: the parameter names of a route pattern the harness registers ({name}, *{name})
+func wildcardNames(pattern string) []string {
+	var out []string
+	for {
+		i := strings.IndexByte(pattern, '{')
+		if i < 0 {
+			return out
+		}
+		j := strings.IndexByte(pattern[i:], '}')
+		if j < 0 {
+			return out
+		}
+		out = append(out, pattern[i+1:i+j])
+		pattern = pattern[i+j+1:]
+	}
 }
